@@ -285,11 +285,13 @@ pub fn gen_case(rng: &mut Rng, g: &GenOpts) -> Case {
     let nconn = rng.range(1, g.max_conns);
     let mut conns = vec![];
     let mut bytes: Vec<VecDeque<u8>> = vec![];
-    // per-connection fault plan: 0 none, 1 truncate+close, 2 close mid-burst, 3 read error, 4 write failure
+    // per-connection fault plan: 0 none, 1 truncate+close, 2 close mid-burst, 3 read error, 4 write failure, 5 big unterminated tail
     let mut plans = vec![];
     for i in 0..nconn {
         let faulty = g.faults && rng.chance(1, 3);
-        let plan = if faulty { rng.range(1, 4) } else { 0 };
+        // 5: after its frames the client sends 4.5..12 KB without a terminator (an oversized / garbage message
+        // on its way), in large pieces interleaved with everybody else's traffic, then hangs up
+        let plan = if faulty { rng.range(1, 5) } else { 0 };
         let maxc = if g.flooders && rng.chance(1, 2) { g.max_calls * 3 } else { g.max_calls };
         let mut descs = gen_descs(rng, maxc, true, g.streams);
         let mut b = vec![];
@@ -310,6 +312,11 @@ pub fn gen_case(rng: &mut Rng, g: &GenOpts) -> Case {
                 }
             }
             4 => wfail = Some(rng.below(4)),
+            5 => {
+                let n = rng.range(4500, 12000);
+                let fill = if rng.chance(1, 2) { b'x' } else { 0xC3 };
+                b.extend(std::iter::repeat(fill).take(n));
+            }
             _ => {}
         }
         plans.push(plan);
@@ -328,7 +335,7 @@ pub fn gen_case(rng: &mut Rng, g: &GenOpts) -> Case {
                 evs.push(Ev::Connect(c));
             }
         } else if !bytes[c].is_empty() {
-            let lim = if rng.chance(1, 3) { 400 } else { 40 };
+            let lim = if plans[c] == 5 && bytes[c].len() > 3000 { 3000 } else if rng.chance(1, 3) { 400 } else { 40 };
             let n = 1 + rng.below(bytes[c].len().min(lim));
             let chunk: Vec<u8> = (0..n).map(|_| bytes[c].pop_front().unwrap()).collect();
             evs.push(Ev::Arrive(c, chunk));
@@ -360,7 +367,7 @@ pub fn gen_case(rng: &mut Rng, g: &GenOpts) -> Case {
             let chunk: Vec<u8> = bytes[c].drain(..).collect();
             evs.push(Ev::Arrive(c, chunk));
         }
-        if plans[c] == 1 && !closed[c] {
+        if (plans[c] == 1 || plans[c] == 5) && !closed[c] {
             evs.push(Ev::Close(c));
         }
         if plans[c] == 3 && !closed[c] {
